@@ -170,7 +170,7 @@ pub fn all() -> Vec<PropDef> {
         PropDef {
             id: "C12",
             level: "exploration",
-            rule: "exhaustive table: every VER list of length 0..=6 over {draft-13, 0, 1, 0x8000000b, 0x8000000d} and 'VER absent', each x SRV absent/correct/wrong; for [draft-13]: all 256 single-bit SRV corruptions, SRV lengths {0,4,28,36,64}, another server's SRV; requests otherwise standard, 48 per batch, one per socket; oracle = truth table of the property + strict verification of every reply (SREP.VER = draft-13, sorted VERS containing it). Non-trivial = list of length >= 2 with draft-13 at position >= 2, or any SRV corruption; distinct by (list, SRV)",
+            rule: "exhaustive table: every VER list of length 0..=6 over {draft-13, 0, 1, 0x8000000b, 0x8000000d} and 'VER absent', each x SRV absent/correct/wrong; for [draft-13]: all 256 single-bit SRV corruptions, SRV lengths {0,4,28,36,64}, another server's SRV; requests otherwise standard, 48 per batch, one per socket; plus proptest sequences of 2..=24 requests on one worker in which each list extends / truncates / repeats the previous one (state carried between requests); oracle = truth table of the property + strict verification of every reply (SREP.VER = draft-13, sorted VERS containing it). Non-trivial = list of length >= 2 with draft-13 at position >= 2, or any SRV corruption; distinct by (list, SRV)",
             assumptions: &["draft-13 at list position 5 or 6 may be answered or not (if answered the reply must verify)"],
             shards: s16,
             timeout_s: t_std,
@@ -200,7 +200,7 @@ pub fn all() -> Vec<PropDef> {
         PropDef {
             id: "C17",
             level: "exploration",
-            rule: "bounded-exhaustive histories of the 8 recording operations x 3 addresses (v4+v6) x limits 1..=3 up to length 4 (quick) / 5 (thorough); random histories up to 10,000 ops with byte counts {0,1,7,1500}; splits across 1..=4 worker recorders with generated snapshot points merged by a real Reporter; traffic mixes served by an in-process Server with client_stats off/on; oracle = exactly-one-counter step invariant, tracked addresses <= limit, Aggregated == PerClient totals while no overflow, merged per-address sums == sums of recorded events, recorded totals == datagrams and replies seen on the sockets. Non-trivial = history that overflowed, split with >= 2 workers and >= 2 snapshots, or a traffic case; distinct by content",
+            rule: "bounded-exhaustive histories of the 8 recording operations x 4 addresses (two v4, one v6, one IPv4-mapped v6) x limits 1..=3 up to length 4 (quick) / 5 (thorough); random histories up to 10,000 ops with byte counts {0,1,7,1500}; splits across 1..=4 worker recorders with generated snapshot points merged by a real Reporter; traffic mixes served by an in-process Server with client_stats off/on; oracle = exactly-one-counter step invariant, tracked addresses <= limit, Aggregated == PerClient totals while no overflow, merged per-address sums == sums of recorded events, recorded totals == datagrams and replies seen on the sockets. Non-trivial = history that overflowed, split with >= 2 workers and >= 2 snapshots, or a traffic case; distinct by content",
             assumptions: &["hooks: PerClientStats::verif_with_limit, Server::verif_stats, Reporter::verif_client_stats (feature verif)", "the snapshot procedure replicated in the split check is the one in Server::send_client_stats (iter -> force_push -> clear)"],
             shards: s16,
             timeout_s: t_std,
